@@ -53,20 +53,20 @@ const (
 var faultNames = []string{"none", "fin", "rst", "wedge", "rst+refused-redials"}
 
 type scenario struct {
-	Active   bool
-	Equip    bool
-	ColdStart int // active: refused dials before the first connect succeeds
-	T3       time.Duration
-	Phases   int
-	Senders  int
-	PerPhase int
-	Faults   []int // fault injected during phase i (fNone = none)
-	FaultAt  []time.Duration
-	PeerMix  []int
-	Unsolicited int // peer primaries per phase
+	Active      bool
+	Equip       bool
+	ColdStart   int // active: refused dials before the first connect succeeds
+	T3          time.Duration
+	Phases      int
+	Senders     int
+	PerPhase    int
+	Faults      []int // fault injected during phase i (fNone = none)
+	FaultAt     []time.Duration
+	PeerMix     []int
+	Unsolicited int  // peer primaries per phase
 	Validate    bool // session-id validation on
 	Foreign     int  // 1 in Foreign unsolicited primaries carries another session id (0 = none)
-	CloseEnd bool
+	CloseEnd    bool
 }
 
 type call struct {
@@ -82,23 +82,23 @@ type harness struct {
 	r  *rig.Rig
 	sc scenario
 
-	calls     []*call
-	inCall    int
-	phase     int
-	arrived   int
-	released  int
-	checks    int
-	finished  bool
-	stop      bool
-	closed    bool
-	closing   bool
-	opened    bool
+	calls    []*call
+	inCall   int
+	phase    int
+	arrived  int
+	released int
+	checks   int
+	finished bool
+	stop     bool
+	closed   bool
+	closing  bool
+	opened   bool
 
-	last       hsms.ConnState
-	leftSelAt  []time.Duration // instants State() left Selected
-	loopSince  time.Duration   // >=0: a reconnect loop must be running since then; -1: none expected
-	usedListeners int
-	refuse     int
+	last            hsms.ConnState
+	leftSelAt       []time.Duration // instants State() left Selected
+	loopSince       time.Duration   // >=0: a reconnect loop must be running since then; -1: none expected
+	usedListeners   int
+	refuse          int
 	listenersAtLoop int
 }
 
@@ -137,6 +137,13 @@ func genScenario(t *core.Tape, faulty bool) scenario {
 
 // Build returns the scenario builder.
 func Build(config string) core.BuildFunc {
+	switch config {
+	case "secs1":
+		return buildSECS1(false)
+	case "secs1-faulty":
+		return buildSECS1(true)
+	}
+
 	return func(w *core.World) *core.Scenario {
 		h := &harness{w: w, loopSince: -1}
 		h.sc = genScenario(w.T, config == "faulty")
